@@ -86,6 +86,11 @@ func init() {
 			i.block("verif.Advance", func() bool { return done })
 			return nil
 		},
+		"KnownDeadlockIf": func(fr *frame, args []value) value {
+			fr.i.ps.knownDeadlockID = argStr(args[0])
+			fr.i.ps.knownDeadlockCond, _ = args[1].(*value)
+			return nil
+		},
 		"Yield": func(fr *frame, args []value) value { fr.i.yield(argStr(args[0])); return nil },
 		"Unsupported": func(fr *frame, args []value) value {
 			fr.i.unsupported("harness: %s", argStr(args[0]))
